@@ -977,6 +977,7 @@ func (fc *FnCtx) bstrDecl() {
 	fc.eng.GDecl("bstr", "(declare-fun bstr ((Array Int Int) Int Int) String)")
 	fc.eng.GAxiom("bstr_len", "(assert (forall ((m (Array Int Int)) (o Int) (n Int)) (! (=> (>= n 0) (= (str.len (bstr m o n)) n)) :pattern ((bstr m o n)))))", "bstr")
 	fc.eng.GAxiom("bstr_one", "(assert (forall ((m (Array Int Int)) (o Int)) (! (=> (and (<= 0 (select m o)) (<= (select m o) 255)) (= (bstr m o 1) (str.from_code (select m o)))) :pattern ((bstr m o 1)))))", "bstr")
+	fc.eng.GAxiom("bstr_split", "(assert (forall ((m (Array Int Int)) (o Int) (a Int) (c Int)) (! (=> (and (<= 0 a) (<= a c)) (= (bstr m o c) (str.++ (bstr m o a) (bstr m (+ o a) (- c a))))) :pattern ((bstr m o c) (bstr m o a)))))", "bstr")
 	fc.eng.GAxiom("bstr_empty", "(assert (forall ((m (Array Int Int)) (o Int)) (! (= (bstr m o 0) \"\") :pattern ((bstr m o 0)))))", "bstr")
 }
 
@@ -1274,6 +1275,25 @@ func (fc *FnCtx) doSelect(x *ssa.Select) {
 	}
 	fc.abstractedNote("select chooses any of its cases; received values are arbitrary")
 	fc.vals[x] = Val{Tuple: tup}
+	// goroutines synchronised with this select (sync clause): apply their contract now
+	if len(fc.syncSites) > 0 {
+		ordSel := fc.selectOrdinal(x)
+		var rest []*ssa.Go
+		for _, g := range fc.syncSites {
+			if fc.syncedGo(g) != ordSel {
+				rest = append(rest, g)
+				continue
+			}
+			callee := fc.resolveCallee(g)
+			ct := fc.eng.ContractFor(callee)
+			if callee == nil || ct == nil {
+				fc.fail("sync clause: the goroutine body needs a contract")
+			}
+			s := fc.buildSite(g)
+			fc.applyContract(s, ct, callee)
+		}
+		fc.syncSites = rest
+	}
 	// "at select#k: set g = e" with $index bound to the chosen case
 	if fc.contract != nil {
 		ord := 0
@@ -1333,6 +1353,11 @@ func (fc *FnCtx) doGo(x *ssa.Go) {
 			}
 		}
 	}
+	if fc.syncedGo(x) > 0 {
+		fc.syncSites = append(fc.syncSites, x)
+		fc.abstractedNote("sync clause: a goroutine is treated as a call completed at the select that waits for it (the other select branches return without using its results)")
+		return
+	}
 	fc.volatile = fc.volatileSet
 	fc.abstractedNote("go statement: the spawned body is not part of this function's proof; memory it may write is treated as volatile")
 }
@@ -1348,4 +1373,22 @@ func (fc *FnCtx) ix(off, i Term) Term {
 func (e *Engine) ixDecl() {
 	e.GDecl("ix", "(declare-fun ix (Int Int) Int)")
 	e.GAxiom("ix_def", "(assert (forall ((o Int) (i Int)) (! (= (ix o i) (+ o i)) :pattern ((ix o i)))))", "(ix ")
+}
+
+func (fc *FnCtx) selectOrdinal(x *ssa.Select) int {
+	var sels []*ssa.Select
+	for _, b := range fc.fn.Blocks {
+		for _, in := range b.Instrs {
+			if sl, ok := in.(*ssa.Select); ok {
+				sels = append(sels, sl)
+			}
+		}
+	}
+	sort.Slice(sels, func(i, j int) bool { return sels[i].Pos() < sels[j].Pos() })
+	for i, sl := range sels {
+		if sl == x {
+			return i + 1
+		}
+	}
+	return 0
 }
